@@ -82,9 +82,9 @@ func tsegTokOK(s string) bool {
 }
 
 // 1..8 blocks of 1..200 values of the suite's class; a column with a float has no string and no bool
-func tsegParseCol(s string) ([][]tlvVal, bool) {
+func tsegParseCol(s string, lim uint64) ([][]tlvVal, bool) {
 	var col [][]tlvVal
-	hasF, hasSB := false, false
+	hasF, hasSB, hasI := false, false, false
 	for _, bs := range strings.Split(s, "/") {
 		var blk []tlvVal
 		for _, t := range strings.Split(bs, ",") {
@@ -96,7 +96,9 @@ func tsegParseCol(s string) ([][]tlvVal, bool) {
 				return nil, false
 			}
 			switch v.v.Kind {
-			case '-', 'z', 'i':
+			case '-', 'z':
+			case 'i':
+				hasI = true
 			case 'b':
 				hasSB = true
 			case 'f':
@@ -117,6 +119,13 @@ func tsegParseCol(s string) ([][]tlvVal, bool) {
 		col = append(col, blk)
 	}
 	if len(col) < 1 || len(col) > 8 || (hasF && hasSB) {
+		return nil, false
+	}
+	// a limit below the production value only for columns that cannot be consolidated to strings: with a small
+	// limit a block can be columnar without any string, writeNonDeBloom then sizes the column's bloom with
+	// bloom.NewWithEstimates(0, p) (k = uint(NaN) = 2^63) and the next insertion into it (convertColumnToStrings)
+	// never returns. Unreachable with the limit 501: a harness restriction, shared with the oracle (colOk).
+	if lim < 501 && hasSB && hasI {
 		return nil, false
 	}
 	return col, true
@@ -170,7 +179,7 @@ func execTlvSeg(line string) Result {
 	names := []string{"c", "d"}[:len(f)-3]
 	cols := make([][][]tlvVal, len(names))
 	for i := range names {
-		c, ok := tsegParseCol(f[3+i])
+		c, ok := tsegParseCol(f[3+i], lim)
 		if !ok {
 			return Result{Out: "bad-op"}
 		}
